@@ -21,9 +21,7 @@ def strip(t):
             args = tuple(strip(a) for a in t[2])
             # a constructor term: drop the `this` argument (address of the object being built); idempotent via the "ctor" tag
             if _is_ctor_name(name):
-                if args and isinstance(args[0], tuple) and args[0] and args[0][0] == "ref":
-                    args = args[1:]
-                return ("ctor", name, args)
+                return ("ctor", name, args[1:])     # drop `this` (the object under construction)
             return ("call", name, args)
         return tuple(strip(x) for x in t)
     return t
@@ -90,6 +88,7 @@ class Sim:
         self.log = []
         self.zero = set()
         self.count_eq = []
+        self.unknown = []
 
     def obj_of_region(self, region, create=True):
         for o in self.objs.values():
@@ -328,6 +327,13 @@ class Sim:
             return
 
     def ext(self, name, args, argterms):
+        if re.search(r"^swap\(ObsAlloc&, ObsAlloc&\)", name) and len(args) >= 2:
+            oa = self.obj_of_region(args[0][1]) if isinstance(args[0], tuple) and args[0][0] == "p" else None
+            ob = self.obj_of_region(args[1][1]) if isinstance(args[1], tuple) and args[1][0] == "p" else None
+            if oa is not None and ob is not None and oa.alloc_off == args[0][2] and ob.alloc_off == args[1][2]:
+                oa.alloc, ob.alloc = ob.alloc, oa.alloc
+                self.log.append("swap(%s.alloc_, %s.alloc_)" % (oa.name, ob.name))
+                return
         # allocator object construction / assignment into a tracked object's alloc_ slot
         if args and isinstance(args[0], tuple) and args[0] and args[0][0] == "p":
             o = self.obj_of_region(args[0][1])
@@ -339,12 +345,18 @@ class Sim:
             if o is not None and re.search(r"layout_t::(operator=|reindex|rotate|unrotate|transpose|partition)", name):
                 o.layout = ("modified", o.layout, name)
                 self.log.append("%s.layout modified by %s" % (o.name, name))
+                return
+            if o is not None and not re.search(r"ObsAlloc|Tracked|std::|polymorphic_allocator|memory_resource", name):
+                self.unknown.append(name)
 
     def alloc_term(self, src):
         if isinstance(src, tuple) and src and src[0] == "ref":
             o = self.obj_of_region(src[1])
             if o is not None and o.alloc_off is not None and src[2] == o.alloc_off:
                 return ("alloc-of", o.name, o.alloc)
+            return src
+        if isinstance(src, tuple):
+            return tuple(self.alloc_term(x) for x in src)
         return src
 
     def alloc_identity(self, a):
